@@ -6,6 +6,7 @@ file shifted by the same d (plain attributes, aggregates, selects, aggregates of
 """
 import copy
 import random
+import re
 from .. import gen_p21, p21fam, ref_p21, run, probes
 from . import c03
 from ..ref_p21 import Inst
@@ -130,25 +131,61 @@ def judge(chk, lib, pops, modes):
                                   % (d, min(g.id for g in seg), max_earlier), files))
             for g, w in zip(seg, p.insts):
                 want = shift_inst(w, d)
-                if ref_p21.canon_inst(c03._numnorm(lib.schema, g)) != ref_p21.canon_inst(c03._numnorm(lib.schema, want)):
-                    # find first differing attribute for the key
-                    shp, kindd = 'instance', 'differs'
-                    for pi, ((kw, wv), (_k, gv)) in enumerate(zip(sorted(want.parts) if want.complex else want.parts, sorted(g.parts) if g.complex else g.parts)):
+                if ref_p21.canon_inst(c03._numnorm(lib.schema, g)) == ref_p21.canon_inst(c03._numnorm(lib.schema, want)):
+                    continue
+                # every differing attribute is reported under its own (shape, kind) key
+                keyed = False
+                wparts = sorted(want.parts) if want.complex else want.parts
+                gparts = sorted(g.parts) if g.complex else g.parts
+                if [k for k, _v in wparts] == [k for k, _v in gparts]:
+                    for (kw, wv), (_k, gv) in zip(wparts, gparts):
                         for j, (a, b) in enumerate(zip(wv, gv)):
                             dd = ref_p21.diff_values(ref_p21.canon_value(ref_p21.number_norm(a)), ref_p21.canon_value(ref_p21.number_norm(b)))
-                            if dd:
-                                pidx = [x[0] for x in w.parts].index(kw)
-                                shp = p21fam.attr_shape(lib.schema, w, pidx, j)
-                                kindd = ('reference not shifted by the file offset' if dd[1].startswith('ref') else dd[1])
-                                break
-                        if shp != 'instance':
-                            break
-                    found.append(('%s|%s|%s' % ('appended file' if fi else 'first file', shp, kindd),
+                            if not dd:
+                                continue
+                            pidx = [x[0] for x in w.parts].index(kw)
+                            shp = p21fam.attr_shape(lib.schema, w, pidx, j)
+                            if re.match(r'^(OPTIONAL )?\w+ OF (OPTIONAL )?\w+ OF .*entity', shp):
+                                shp = 'nested aggregate of entity' + (' in complex part' if 'complex part' in shp else '')
+                            kindd = 'reference not shifted by the file offset' if dd[1].startswith('ref') else dd[1]
+                            found.append(('%s|%s|%s' % ('appended file' if fi else 'first file', shp, kindd),
+                                          'file %d #%d (offset %d) %s attr %d%s: got %r want %r' % (fi, w.id, d, kw, j, dd[0], str(b)[:200], str(a)[:200]), files))
+                            keyed = True
+                if not keyed:
+                    found.append(('%s|instance|differs' % ('appended file' if fi else 'first file'),
                                   'file %d #%d (offset %d): got %r want %r' % (fi, w.id, d, str(g)[:300], str(want)[:300]), files))
-                    break
             mx = max(g.id for g in seg)
             max_earlier = mx if max_earlier is None else max(max_earlier, mx)
     return found
+
+
+def matrix_case():
+    """Fixed schema + population in which a reference occurs in every position the property names:
+    plain attribute, aggregate, nested aggregate, select (entity member), select (typed aggregate-of-entity member),
+    aggregate of selects, complex part."""
+    from .. import model as M
+    types = [M.TypeDef('label', 'simple', base=M.STR()),
+             M.TypeDef('pset', 'simple', base=M.AGG('SET', M.ENT('pt'), 0, None)),
+             M.TypeDef('psel', 'select', members=['pt', 'pset', 'label'])]
+    ents = [M.Entity('pt', attrs=[M.Attr('n', M.STR())]),
+            M.Entity('holder', attrs=[M.Attr('r', M.ENT('pt')), M.Attr('lr', M.AGG('LIST', M.ENT('pt'))), M.Attr('llr', M.AGG('LIST', M.AGG('LIST', M.ENT('pt')))),
+                                      M.Attr('s', M.NAMED('psel')), M.Attr('ss', M.NAMED('psel')), M.Attr('ls', M.AGG('LIST', M.NAMED('psel'))),
+                                      M.Attr('ps', M.NAMED('pset')), M.Attr('opt', M.ENT('holder'), True)]),
+            M.Entity('cx', sexpr=('andor', ('leaf', 'cx1'), ('leaf', 'cx2')), attrs=[M.Attr('c0', M.ENT('pt'))]),
+            M.Entity('cx1', supers=['cx'], attrs=[M.Attr('c1', M.AGG('LIST', M.ENT('pt')))]),
+            M.Entity('cx2', supers=['cx'], attrs=[M.Attr('c2', M.NAMED('psel'))])]
+    s = M.Schema('c14_matrix', types, ents)
+
+    def pop(tag):
+        R = lambda k: ('ref', k)
+        insts = [Inst(1, [('PT', [('str', tag + '1')])]), Inst(2, [('PT', [('str', tag + '2')])]), Inst(3, [('PT', [('str', tag + '3')])]),
+                 Inst(4, [('HOLDER', [R(1), ('agg', [R(2), R(3)]), ('agg', [('agg', [R(1)]), ('agg', [R(3), R(2)])]), R(2),
+                                      ('typed', 'PSET', ('agg', [R(1), R(3)])), ('agg', [R(3), ('typed', 'LABEL', ('str', 'x')), ('typed', 'PSET', ('agg', [R(2)]))]),
+                                      ('agg', [R(3), R(1)]), ('null',)])]),
+                 Inst(5, [('HOLDER', [R(3), ('agg', []), ('agg', []), ('typed', 'LABEL', ('str', 'y')), R(1), ('agg', []), ('agg', []), R(4)])]),
+                 Inst(6, [('CX', [R(2)]), ('CX1', [('agg', [R(1), R(2)])]), ('CX2', [('typed', 'PSET', ('agg', [R(3)]))])], True)]
+        return gen_p21.Population(s, insts)
+    return s, [pop('a'), pop('b'), pop('c')]
 
 
 def main(chk):
@@ -175,6 +212,15 @@ def main(chk):
             if p is None:
                 continue
             cases.append((lib, pops, modes))
+
+    ms, mpops = matrix_case()
+    mlib = p21fam.build_libs([ms])[0]
+    if mlib.fail is None:
+        cases.append((mlib, mpops[:2], ['matrix', 'matrix']))
+        cases.append((mlib, mpops, ['matrix', 'matrix', 'matrix']))
+        cases.append((mlib, [renumber(mpops[0], 'near1000', random.Random(1)), mpops[1]], ['matrix-near1000', 'matrix']))
+    else:
+        chk.inconc('matrix schema could not be built: %s' % str(mlib.fail)[:300])
 
     def work(c):
         return c, judge(chk, *c)
